@@ -724,15 +724,33 @@ def run_case(ctx, srv, script, label="general", fx=False):
             if isinstance(rl, str) and rl.startswith("E:"):
                 ctx.count("err:" + rl)
             if EQUIV_ERRORS.get(rl, rl) != EQUIV_ERRORS.get(rr, rr) if isinstance(rl, str) and isinstance(rr, str) else rl != rr:
-                bad = (i, "result", rl, rr)
+                bad = (i, "result", rl, rr, sl)
                 if label != "modelled":
                     break
             last = i == len(script) - 1
+            prev = sl
             sl, sr = readback(L, full=last), readback(R, full=last)
-            if sl != sr:
-                keys = [k for k in sl if sl[k] != sr.get(k)]
-                bad = (i, "state:" + ",".join(keys), {k: sl[k] for k in keys}, {k: sr[k] for k in keys})
+            # a local branch object that holds the write lock saves its configuration when it unlocks:
+            # while the script holds a lock the config-backed fields are compared only after the release
+            skip = ("conf", "parent") if (L.held or R.held) else ()
+            if any(sl[k] != sr.get(k) for k in sl if k not in skip):
+                keys = [k for k in sl if sl[k] != sr.get(k) and k not in skip]
+                bad = (i, "state:" + ",".join(keys), {k: sl[k] for k in keys}, {k: sr[k] for k in keys}, prev)
                 break
+        if bad is None and (L.held or R.held):
+            # release what the script still holds and compare everything once more
+            for side in (L, R):
+                while side.held:
+                    b, _ = side.held.pop()
+                    try:
+                        while b.is_locked():
+                            b.unlock()
+                    except Exception:
+                        pass
+            fl, fr = readback(L, full=True), readback(R, full=True)
+            if fl != fr:
+                keys = [k for k in fl if fl[k] != fr.get(k)]
+                bad = (len(script) - 1, "final-state:" + ",".join(keys), {k: fl[k] for k in keys}, {k: fr[k] for k in keys}, sl)
         if label == "modelled" and sl is not None and (bad is None or bad[1] == "result"):
             model_compare(ctx, case, W, script, res_l, res_r, sl, sr, fx)
     finally:
@@ -741,10 +759,12 @@ def run_case(ctx, srv, script, label="general", fx=False):
         shutil.rmtree(ltop, ignore_errors=True)
         shutil.rmtree(rbase, ignore_errors=True)
     if bad:
-        i, what, l, r = bad
+        i, what, l, r, before = bad
         ctx.violation(dict(case, failed_at=i),
                       "after operation %d %r of the script the %s differs: local %s / through the smart server %s"
-                      % (i, script[i], what, str(l)[:300], str(r)[:300]), family=_family(script, i, what, l, r))
+                      % (i, script[i], what, str(l)[:300], str(r)[:300]),
+                      family=_family(script, i, what, l, r, before))
+        return bad[:4]
     return bad
 
 
@@ -844,19 +864,26 @@ def probe_fx(srv):
     return b"null:" in r
 
 
-def _family(script, i, what, l, r):
-    """classify a failing step by the concrete operation and difference"""
+def _family(script, i, what, l, r, before=None):
+    """classify a failing step by the concrete operation, the difference and the state before the step"""
     op = script[i]
+    ghost_tip = bool(before) and before["tip"][1] != "null:" and before["tip"][1] not in before["revs"]
     if (op[0] in ("parent_map", "m_parent_map") and what == "result" and isinstance(l, dict) and isinstance(r, dict)
-            and "null:" in op[1] and len(set(op[1])) > 1
+            and "null:" in op[1]
             and "null:" in l and "null:" not in r and {k: v for k, v in l.items() if k != "null:"} == r):
-        # get_parent_map([..., b"null:", ...]) through the server loses the null: entry
+        # get_parent_map([..., b"null:", ...]) through the server loses the null: entry (and, having
+        # cached null: as missing, then also for a later request of null: alone on the same object)
         return "get-parent-map-null-dropped"
-    if (op[0] == "gen_history" and what == "result" and l == "ok" and r == "E:NoSuchRevision"
-            and any(o[0] == "set_tip" and o[2] == op[1] for o in script[:i])
-            and not any(o[0] in ("push", "pull_into_T", "fetch_to_T", "ck_commit") for o in script[:i])):
-        # the tip was set to a revision that is not in the repository, then generate_revision_history(tip)
-        return "generate-revision-history-of-absent-tip"
+    if ghost_tip and what == "result" and op[0] in ("gen_history", "revid_of", "revno_of", "dotted_revno_of", "merge_sorted",
+                                                   "stats", "missing_revs", "heads"):
+        # the tip had been set (set_last_revision_info does not check) to a revision that is not in the
+        # repository; reads / history generation on that state answer with different results or error classes
+        return "tip-absent-from-repository-" + op[0]
+    if (op[0] == "stats" and what == "result" and isinstance(l, dict) and isinstance(r, dict)
+            and l.get("committers") == 0 and "committers" not in r and l.get("revisions") == 0):
+        # gather_stats(b"null:", committers=True): the null revision travels as b"" -> None and the server
+        # then leaves out the committers count
+        return "gather-stats-null-revision-committers"
     return None
 
 
